@@ -1,9 +1,117 @@
-//! c13 -- placeholder; implemented by the owning property module.
+//! c13 -- drive `sc62015_core::timer::TimerContext` over a generated history.
+//!
+//! Thin adapter, no timer semantics of its own.  A case is
+//!   {"mti": p, "sti": q, "enabled": bool, "isr0": byte, "ops": [[verb, arg?], ...]}
+//! and every op maps to exactly one public call of the crate:
+//!   ["t", c]   TimerContext::tick_timers(&mut MemoryImage, c, None)
+//!   ["b", n]   n ticks at last_cycle+1 ..= last_cycle+n   (WAIT-like burst; one observation per tick)
+//!   ["r", b]   TimerContext::reset(b)
+//!   ["s", k]   snapshot_info() -> (k=1: serde_json round trip of TimerInfo/InterruptInfo) ->
+//!              apply_snapshot_info() on a *fresh* TimerContext built with unrelated defaults
+//!   ["w", v]   MemoryImage::write_internal_byte(0xFC, v)   (firmware acknowledging/clearing ISR bits)
+//! Observation per tick: [fired_mti | fired_sti<<1, next_mti, next_sti, ISR byte after the tick];
+//! per reset/snapshot: [next_mti, next_sti]; per write: [ISR].
+use crate::util::{err, get_bool, get_u64};
+use sc62015_core::memory::MemoryImage;
+use sc62015_core::timer::TimerContext;
+use sc62015_core::{InterruptInfo, TimerInfo};
 use serde_json::{json, Value};
 
 #[derive(Default)]
 pub struct State {}
 
-pub fn handle(verb: &str, _req: &Value, _st: &mut State) -> Value {
-    json!({"ok": false, "error": format!("c13.{verb} not implemented")})
+const ISR: u32 = 0xFC;
+
+fn tick(ctx: &mut TimerContext, mem: &mut MemoryImage, c: u64) -> Value {
+    let (m, s) = ctx.tick_timers(mem, c, None);
+    let isr = mem.read_internal_byte(ISR).unwrap_or(0);
+    json!([(m as u8) | ((s as u8) << 1), ctx.next_mti, ctx.next_sti, isr])
+}
+
+fn run_case(case: &Value) -> Value {
+    let enabled = get_bool(case, "enabled", true);
+    let mti = get_u64(case, "mti", 0).min(i32::MAX as u64) as i32;
+    let sti = get_u64(case, "sti", 0).min(i32::MAX as u64) as i32;
+    let mut ctx = TimerContext::new(enabled, mti, sti);
+    let mut mem = MemoryImage::new();
+    mem.write_internal_byte(ISR, get_u64(case, "isr0", 0) as u8);
+    let mut last: u64 = 0;
+    let mut obs: Vec<Value> = Vec::new();
+    let empty = Vec::new();
+    let ops = case.get("ops").and_then(|v| v.as_array()).unwrap_or(&empty);
+    for op in ops {
+        let verb = op.get(0).and_then(|v| v.as_str()).unwrap_or("");
+        let arg = op.get(1).and_then(|v| v.as_u64()).unwrap_or(0);
+        match verb {
+            "t" => {
+                last = arg;
+                obs.push(tick(&mut ctx, &mut mem, arg));
+            }
+            "b" => {
+                let mut burst: Vec<Value> = Vec::with_capacity(arg as usize);
+                for _ in 0..arg {
+                    last += 1;
+                    burst.push(tick(&mut ctx, &mut mem, last));
+                }
+                obs.push(Value::Array(burst));
+            }
+            "r" => {
+                ctx.reset(arg);
+                last = arg;
+                obs.push(json!([ctx.next_mti, ctx.next_sti]));
+            }
+            "s" => {
+                let (ti, ii) = ctx.snapshot_info();
+                let (ti, ii): (TimerInfo, InterruptInfo) = if arg == 1 {
+                    let a = serde_json::to_string(&ti).expect("TimerInfo serialises");
+                    let b = serde_json::to_string(&ii).expect("InterruptInfo serialises");
+                    (
+                        serde_json::from_str(&a).expect("TimerInfo deserialises"),
+                        serde_json::from_str(&b).expect("InterruptInfo deserialises"),
+                    )
+                } else {
+                    (ti, ii)
+                };
+                // Fresh context with unrelated configuration: everything must come from the snapshot.
+                let mut fresh = TimerContext::new(!enabled, 2048, 512_000);
+                fresh.apply_snapshot_info(&ti, &ii, last);
+                ctx = fresh;
+                obs.push(json!([ctx.next_mti, ctx.next_sti]));
+            }
+            "w" => {
+                mem.write_internal_byte(ISR, arg as u8);
+                obs.push(json!([mem.read_internal_byte(ISR).unwrap_or(0)]));
+            }
+            _ => return json!({"error": format!("unknown op {verb}")}),
+        }
+    }
+    json!({"obs": obs, "enabled": ctx.enabled, "mti": ctx.mti_period, "sti": ctx.sti_period})
+}
+
+pub fn handle(verb: &str, req: &Value, _st: &mut State) -> Value {
+    match verb {
+        "batch" => {
+            let empty = Vec::new();
+            let cases = req.get("cases").and_then(|v| v.as_array()).unwrap_or(&empty);
+            let mut results: Vec<Value> = Vec::with_capacity(cases.len());
+            for case in cases {
+                let r = std::panic::catch_unwind(std::panic::AssertUnwindSafe(|| run_case(case)));
+                results.push(match r {
+                    Ok(v) => v,
+                    Err(e) => {
+                        let msg = if let Some(s) = e.downcast_ref::<&str>() {
+                            s.to_string()
+                        } else if let Some(s) = e.downcast_ref::<String>() {
+                            s.clone()
+                        } else {
+                            "panic".to_string()
+                        };
+                        json!({"panic": msg})
+                    }
+                });
+            }
+            json!({"ok": true, "results": results})
+        }
+        _ => err(format!("unknown c13 verb {verb}")),
+    }
 }
